@@ -1,6 +1,6 @@
 (* C14: unchecked indexing and memory-mapped writes always stay inside their buffers. *)
 From Coq Require Import NArith ZArith List Lia Arith.
-From KT Require Import Gen.Generated Gen.Alphabet Gen.GeneratedFacts Model.Kmer Model.Show Model.Ops Model.Rows.
+From KT Require Import Gen.Generated Gen.Alphabet Gen.GeneratedFacts Gen.UnsafeInv Gen.UnsafeFacts Model.Kmer Model.Show Model.Ops Model.Rows.
 From KT Require Import Model.Pipeline Proof.KmerProof Proof.RevComp Proof.PosMap Proof.Oligo Proof.Batch Proof.RowsProof Proof.LayoutProof.
 Import ListNotations.
 Open Scope N_scope.
@@ -85,8 +85,8 @@ Qed.
 (* the unsafe constructs found in the workspace's sources are exactly the inventoried ones: each is hooked
    (indexing, write_at) or modelled (C13); a new unchecked access without a hook breaks this obligation, and the
    property is then no longer shown for that site *)
-Theorem C14_no_uninventoried_unsafe_site : inv_eqb unsafe_inventory expected_unsafe_inventory = true.
-Proof. exact unsafe_inventory_ok. Qed.
+Theorem C14_no_uninventoried_unsafe_site : inv_eqb unsafe_core expected_unsafe_core = true.
+Proof. exact unsafe_core_ok. Qed.
 
 Example C14_example : row_len 9 2 = (10 * 8 + 9 * 2 + 1)%nat /\ size_fixed 9 2 30 3 = (3 * 99 + 30)%nat.
 Proof. vm_compute. split; reflexivity. Qed.
